@@ -23,10 +23,7 @@ Definition leading_blank_multiline (s : string) : bool :=
   contains "010" s && match s with String c _ => N.eqb (b c) 10 || N.eqb (b c) 32 || N.eqb (b c) 9 | EmptyString => false end.
 
 (* 0: outside every class; 1: C09/json-c1-controls; 2: C09/json-nel; 3: C09/yaml-leading-blank-multiline.  enc: 0 = .json, 1 = .yaml, 2 = no extension (YAML) *)
-Definition known_class (enc : nat) (s : spec) : nat :=
-  let strs := spec_strings s in
-  if Nat.eqb enc 0 then 0      (* repaired defect D20: no string is set aside for .json files any more *)
-  else (if existsb leading_blank_multiline strs then 3 else 0).
+Definition known_class (enc : nat) (s : spec) : nat := 0.   (* repaired defects D20 and D29: no string is set aside any more *)
 
 (* one written file: the Spec handed to Cache.WriteSpec, the encoding, the generic JSON image of json.Marshal(spec), the Spec
    read back with cdi.ReadSpec (None: error), whether the devices loaded through the cache equal the original ones, the Spec
